@@ -20,7 +20,7 @@ FORBIDDEN = re.compile(r"\b(sorry|admit|native_decide|bv_decide|implemented_by|u
 TRUSTED_BASE = [
     "Lean 4.33.0 kernel (lake build; leanchecker re-check in the thorough tier)",
     "axioms allowed in property theorems: propext, Classical.choice, Quot.sound (audited with #print axioms on every run); no sorry/admit/axiom/native_decide/bv_decide",
-    "translator harness/extract.py (Generated/*.lean regenerated from /repo on every run)",
+    "translator harness/extract.py (Generated/*.lean regenerated from /repo on every run: tables, enums, constants) and harness/pytrans.py (Generated/Codec.lean: the straight-line codecs translated from the source text; Lemmas/CodecEq.lean proves them equal to the hand-written Model for all inputs; Python operator semantics in Py/Ops.lean)",
     "correspondence harness (generators, canonicalisers, virtual-time loop, fake transports) ties the hand-written Model to the real code by differential testing",
     "CPython, asyncio, pycryptodome, hashlib, httpx, argparse, ast.literal_eval, xml.etree, ipaddress are modelled, not verified",
 ]
@@ -354,6 +354,7 @@ class Ctx:
                 "leanchecker": b.get("leanchecker"),
                 "source_drift": (b.get("generated") or {}).get("source_drift"),
                 "generated_changed": (b.get("generated") or {}).get("changed"),
+                "translator": (b.get("generated") or {}).get("translator"),
                 "driver_calls": self.driver.calls if self.driver else 0,
                 "known_findings_hit": {k: len(v) for k, v in self.known_hits.items()},
                 "notes": self.notes,
